@@ -9,6 +9,7 @@ import HvProofs.Vdi
 import HvProofs.Vhd
 import HvProofs.Hds
 import HvProofs.Vhdx
+import HvProofs.Layers
 namespace Hv.Footprint
 open Hv
 
@@ -852,7 +853,7 @@ theorem vhd_open_footprint (f f' : File) (hag : AgreeOn (vhdOpen f) f f') :
 
 end opens
 
-/-! ### VHDX (blocks that are not partially present) -/
+/-! ### VHDX -/
 section vhdx
 open Hv.Vhdx Hv.Extracted.vhdx
 
@@ -867,10 +868,45 @@ theorem vhdx_batGet_congr (v : Vhdx) (f' : File) (entry : Nat) (hs : v.fh.size =
     rw [field_congr v.fh f' _ _ bat_entry.state hs (h (by omega)) (by decide),
       field_congr v.fh f' _ _ bat_entry.file_offset_mb hs (h (by omega)) (by decide)]
 
+/-- the run loop of a partially present block looks only at the sectors of the runs, all inside the `n` requested
+    sectors when the run counts add up to at most `n` -/
+theorem vhdx_partialData_congr (v : Vhdx) (f' : File) (hs : v.fh.size = f'.size) (mb sector sib n : Nat)
+    (h : ∀ p, mb * MB + sib * v.sectorSize ≤ p → p < mb * MB + sib * v.sectorSize + n * v.sectorSize →
+      v.fh.byte p = f'.byte p) :
+    ∀ (runs : List (Nat × Nat)) (rel : Nat), rel + (Layers.expand runs).length ≤ n →
+      v.partialData mb sector sib runs rel = ({ v with fh := f' } : Vhdx).partialData mb sector sib runs rel := by
+  intro runs
+  induction runs with
+  | nil => intro rel _; rfl
+  | cons r rest ih =>
+    obtain ⟨ty, cnt⟩ := r
+    intro rel hlen
+    simp only [Layers.expand, List.length_append, List.length_replicate] at hlen
+    unfold Vhdx.partialData
+    rw [← ih (rel + cnt) (by omega)]
+    have hrd : v.fh.read (mb * MB + (sib + rel) * v.sectorSize) (cnt * v.sectorSize)
+        = f'.read (mb * MB + (sib + rel) * v.sectorSize) (cnt * v.sectorSize) := by
+      apply File.read_congr _ _ _ _ hs
+      intro p h1 h2
+      have e1 : (sib + rel) * v.sectorSize = sib * v.sectorSize + rel * v.sectorSize := Nat.add_mul _ _ _
+      have e2 : rel * v.sectorSize + cnt * v.sectorSize ≤ n * v.sectorSize := by
+        rw [← Nat.add_mul]; exact Nat.mul_le_mul_right _ (by omega)
+      apply h p <;> omega
+    simp only [hrd]
+
+/-- the run counts of `_iter_partial_runs(bitmap, start, n)` add up to at most `n` -/
+theorem vhdx_runs_total (bm : Bytes) (start n : Nat) (hs : start < 8) (runs : List (Nat × Nat))
+    (h : iterPartialRuns bm start n = .ok runs) : (Layers.expand runs).length ≤ n := by
+  cases bm with
+  | nil => simp [iterPartialRuns] at h
+  | cons b0 rest =>
+    rw [Layers.iterPartialRuns_eq _ _ _ hs (by simp)] at h
+    simp only [Except.ok.injEq] at h
+    rw [← h, Layers.expand_rle, Layers.bits_length]
+    exact Nat.min_le_left _ _
+
 theorem vhdx_loop_congr (v : Vhdx) (f' : File) (s0 c0 : Nat)
-    (hag : AgreeOn ((unitsTouched v.spb s0 c0).flatMap (vhdxUnit v s0 c0)) v.fh f')
-    (hnp : ∀ i ∈ unitsTouched v.spb s0 c0, ∀ st mb, v.batGet (v.pbIndex i) = .ok (st, mb) →
-      st ≠ PAYLOAD_BLOCK_PARTIALLY_PRESENT) :
+    (hag : AgreeOn ((unitsTouched v.spb s0 c0).flatMap (vhdxUnit v s0 c0)) v.fh f') :
     ∀ fuel sector count, s0 ≤ sector → sector + count = s0 + c0 → (sector = s0 ∨ sector % v.spb = 0) →
       v.readSectors fuel sector count = ({ v with fh := f' } : Vhdx).readSectors fuel sector count := by
   intro fuel
@@ -910,7 +946,11 @@ theorem vhdx_loop_congr (v : Vhdx) (f' : File) (s0 c0 : Nat)
           | ok r =>
             obtain ⟨st, mb⟩ := r
             simp only [bind, Except.bind]
-            have hst := hnp _ hmem st mb hg
+            have hlt : ¬ v.entryCount ≤ v.pbIndex (sector / v.spb) := by
+              intro hle
+              unfold Vhdx.batGet at hg
+              have : v.pbIndex (sector / v.spb) + 1 > v.entryCount := by omega
+              simp [this] at hg
             by_cases h1 : st = PAYLOAD_BLOCK_NOT_PRESENT
             · simp only [h1, if_true]
             · simp only [h1, if_false]
@@ -923,14 +963,64 @@ theorem vhdx_loop_congr (v : Vhdx) (f' : File) (s0 c0 : Nat)
                   apply hag.read
                   rw [List.mem_flatMap]
                   refine ⟨_, hmem, ?_⟩
-                  have hlt : ¬ v.entryCount ≤ v.pbIndex (sector / v.spb) := by
-                    intro hle
-                    unfold Vhdx.batGet at hg
-                    have : v.pbIndex (sector / v.spb) + 1 > v.entryCount := by omega
-                    simp [this] at hg
                   subst h3
                   simp only [vhdxUnit, hlt, if_false, hg, hpart, if_true, List.mem_cons, true_or, or_true]
-                · simp only [h3, if_false, hst]
+                · simp only [h3, if_false]
+                  by_cases h4 : st = PAYLOAD_BLOCK_PARTIALLY_PRESENT
+                  · subst h4
+                    simp only [if_true]
+                    -- the footprint of this block
+                    have hunit : ∀ r, r ∈ ((v.batOffset + v.sbIndex (sector / v.spb) * 8, bat_entry.size) ::
+                          ((match v.batGet (v.sbIndex (sector / v.spb)) with
+                            | .ok (_, sbmb) =>
+                              [(sbmb * MB + ((sector / v.spb) % v.chunkRatio * v.spb + sector % v.spb) / 8,
+                                (((sector / v.spb) % v.chunkRatio * v.spb + sector % v.spb) % 8 + n + 8 - 1) / 8)]
+                            | .error _ => []) ++
+                          [(mb * MB + sector % v.spb * v.sectorSize, n * v.sectorSize)])) →
+                        r ∈ (unitsTouched v.spb s0 c0).flatMap (vhdxUnit v s0 c0) := by
+                      intro r hr
+                      rw [List.mem_flatMap]
+                      refine ⟨_, hmem, ?_⟩
+                      have hne : PAYLOAD_BLOCK_PARTIALLY_PRESENT ≠ PAYLOAD_BLOCK_FULLY_PRESENT := by decide
+                      simp only [vhdxUnit, hlt, if_false, hg, hpart, hne, if_true]
+                      exact List.mem_cons_of_mem _ hr
+                    have hsb : ({ v with fh := f' } : Vhdx).batGet (v.sbIndex (sector / v.spb))
+                        = v.batGet (v.sbIndex (sector / v.spb)) := by
+                      apply vhdx_batGet_congr v f' _ hag.1
+                      intro _
+                      exact hag.2 _ (hunit _ (List.mem_cons_self ..))
+                    have hsbi : ({ v with fh := f' } : Vhdx).sbIndex (sector / v.spb) = v.sbIndex (sector / v.spb) := rfl
+                    rw [hsbi, hsb]
+                    cases hgs : v.batGet (v.sbIndex (sector / v.spb)) with
+                    | error e => rfl
+                    | ok rs =>
+                      obtain ⟨sst, sbmb⟩ := rs
+                      simp only
+                      rw [hgs] at hunit
+                      simp only at hunit
+                      have hbm : f'.read (sbmb * MB + ((sector / v.spb) % v.chunkRatio * v.spb + sector % v.spb) / 8)
+                            ((((sector / v.spb) % v.chunkRatio * v.spb + sector % v.spb) % 8 + n + 8 - 1) / 8)
+                          = v.fh.read (sbmb * MB + ((sector / v.spb) % v.chunkRatio * v.spb + sector % v.spb) / 8)
+                            ((((sector / v.spb) % v.chunkRatio * v.spb + sector % v.spb) % 8 + n + 8 - 1) / 8) := by
+                        symm
+                        apply hag.read
+                        apply hunit
+                        simp only [List.mem_cons, List.mem_append, true_or, or_true]
+                      rw [hbm]
+                      cases hruns : iterPartialRuns
+                          (v.fh.read (sbmb * MB + ((sector / v.spb) % v.chunkRatio * v.spb + sector % v.spb) / 8)
+                            ((((sector / v.spb) % v.chunkRatio * v.spb + sector % v.spb) % 8 + n + 8 - 1) / 8))
+                          (((sector / v.spb) % v.chunkRatio * v.spb + sector % v.spb) % 8) n with
+                      | error e => rfl
+                      | ok runs =>
+                        simp only
+                        apply vhdx_partialData_congr v f' hag.1 mb sector (sector % v.spb) n _ runs 0
+                        · rw [Nat.zero_add]
+                          exact vhdx_runs_total _ _ _ (Nat.mod_lt _ (by omega)) runs hruns
+                        · apply hag.2 (mb * MB + sector % v.spb * v.sectorSize, n * v.sectorSize)
+                          apply hunit
+                          simp only [List.mem_cons, List.mem_append, true_or, or_true]
+                  · simp only [h4, if_false]
         simp only [bind, Except.bind]
         rw [← hchunk]
         by_cases hrest : count - n = 0
@@ -939,16 +1029,15 @@ theorem vhdx_loop_congr (v : Vhdx) (f' : File) (s0 c0 : Nat)
           obtain ⟨_, e2⟩ := next_block sector v.spb n hpos hfull
           rw [ih (sector + n) (count - n) (by omega) (by omega) (Or.inr e2)]
 
-/-- **read_footprint (VHDX), partial**: for requests that touch no partially-present block, `_read` depends on the file
-    only through its size and the bytes of the footprint (8-byte BAT entries of the blocks touched + the requested
-    sectors of the fully present ones). Missing for the full statement: blocks in state PARTIALLY_PRESENT (the present
-    runs of `_iter_partial_runs` lie inside the requested sectors — needs "run counts add up to the request"). -/
-theorem vhdx_read_footprint_partial (v : Vhdx) (f' : File) (off len : Nat) (hag : AgreeOn (vhdx v off len) v.fh f')
-    (hnp : ∀ i ∈ unitsTouched v.spb (off / v.sectorSize) ((min len (v.size - off) + v.sectorSize - 1) / v.sectorSize),
-      ∀ st mb, v.batGet (v.pbIndex i) = .ok (st, mb) → st ≠ PAYLOAD_BLOCK_PARTIALLY_PRESENT) :
+/-- **read_footprint (VHDX)**: `_read` depends on the file only through its size and the bytes of the footprint: the
+    8-byte BAT entries of the payload blocks touched, the requested sectors of the fully present ones, and for a
+    partially present block the sector-bitmap BAT entry, the bitmap bytes of the requested sectors and the requested
+    sectors (every present run of `_iter_partial_runs` lies inside them: `vhdx_runs_total`). No hypothesis on the
+    image. -/
+theorem vhdx_read_footprint (v : Vhdx) (f' : File) (off len : Nat) (hag : AgreeOn (vhdx v off len) v.fh f') :
     v.read off len = ({ v with fh := f' } : Vhdx).read off len := by
   unfold Vhdx.read
-  exact vhdx_loop_congr v f' _ _ hag hnp _ _ _ (Nat.le_refl _) rfl (Or.inl rfl)
+  exact vhdx_loop_congr v f' _ _ hag _ _ _ (Nat.le_refl _) rfl (Or.inl rfl)
 
 end vhdx
 
